@@ -284,7 +284,7 @@ def poison_twins(src):
 
 
 def n_generated(tier):
-    return 160 if tier == "quick" else 1500
+    return 160 if tier == "quick" else 800
 
 
 def cases(seed, tier):
